@@ -111,7 +111,7 @@ theorem fastaOf_lines (w : Nat) (hw : 1 ≤ w) (resOf : Str → Bytes) (scs : Li
   induction scs with
   | nil => rfl
   | cons s t ih =>
-    simp only [List.map_cons, List.flatten_cons, ih, List.flatMap_cons, List.map_append, List.flatten_append,
+    rw [List.map_cons, List.flatten_cons, ih, List.flatMap_cons, List.map_append, List.flatten_append,
       recordBytes_lines w hw]
 
 /-- **reading back**: for scaffold names without LF and bodies without `>` / LF, the header lines of the FASTA text
@@ -192,5 +192,83 @@ theorem nodup_flatMap_names : ∀ (l : List OutAsm), (∀ a ∈ l, (a.scaffolds.
     obtain ⟨t, ht, rfl⟩ := List.mem_map.mp hy
     obtain ⟨b, hb, htb⟩ := List.mem_flatMap.mp ht
     exact h2.1 b hb s hs t htb
+
+/-! ### where a residue of an input record ends up -/
+
+theorem slice_getElem? (res : Bytes) (a b x : Int) (h0 : 1 ≤ a) (h1 : a ≤ x) (h2 : x ≤ b) :
+    (slice res a b)[(x - a).toNat]? = res[(x - 1).toNat]? := by
+  unfold slice slice0
+  rw [List.getElem?_take, if_pos (by omega), List.getElem?_drop]
+  congr 1
+  omega
+
+theorem rc_getElem? (s : Bytes) (k : Nat) (hk : k < s.length) :
+    (reverseComplement s)[k]? = (s[s.length - 1 - k]?).map comp := by
+  unfold reverseComplement
+  rw [List.getElem?_map, List.getElem?_reverse hk]
+
+theorem rowsBody_append (resOf : Str → Bytes) (a b : List Row) :
+    rowsBody resOf (a ++ b) = rowsBody resOf a ++ rowsBody resOf b := by
+  simp [rowsBody]
+
+theorem rowsBody_cons (resOf : Str → Bytes) (r : Row) (b : List Row) :
+    rowsBody resOf (r :: b) = rowBody resOf r ++ rowsBody resOf b := by
+  simp [rowsBody]
+
+/-- offset of base `x` of a fragment row inside what the row contributes -/
+def offsetInRow (f : Fragment) (x : Int) : Nat := if f.strand = -1 then (f.stop - x).toNat else (x - f.start).toNat
+
+/-- **one residue**: in the body of a record whose rows are `pre ++ [f] ++ post`, base `x` of the fragment row `f`
+    (`f.start ≤ x ≤ f.stop`, the row lying within its input record) stands at offset `|body of pre| + offsetInRow f x`:
+    as itself for a forward row, complemented (`IUPAC_COMPLEMENT`) for a minus row. -/
+theorem rowsBody_residue (resOf : Str → Bytes) (pre post : List Row) (f : Fragment) (x : Int)
+    (h0 : 1 ≤ f.start) (h1 : f.start ≤ x) (h2 : x ≤ f.stop) (h3 : f.stop ≤ (resOf f.name).length) :
+    (rowsBody resOf (pre ++ Row.frag f :: post))[(rowsBody resOf pre).length + offsetInRow f x]? =
+      if f.strand = -1 then ((resOf f.name)[(x - 1).toNat]?).map comp else (resOf f.name)[(x - 1).toNat]? := by
+  have hlen := slice_length (resOf f.name) f.start f.stop h0 (by omega) h3
+  rw [rowsBody_append, rowsBody_cons, List.getElem?_append_right (by omega), Nat.add_sub_cancel_left]
+  unfold offsetInRow
+  by_cases hs : f.strand = -1
+  · simp only [hs, if_true, rowBody]
+    have hk : (f.stop - x).toNat < (slice (resOf f.name) f.start f.stop).length := by omega
+    have hk' : (f.stop - x).toNat < (reverseComplement (slice (resOf f.name) f.start f.stop)).length := by
+      simp only [reverseComplement, List.length_map, List.length_reverse]; exact hk
+    rw [List.getElem?_append_left hk', rc_getElem? _ _ hk]
+    have : (slice (resOf f.name) f.start f.stop).length - 1 - (f.stop - x).toNat = (x - f.start).toNat := by omega
+    rw [this, slice_getElem? _ _ _ _ h0 h1 h2]
+  · simp only [hs, if_false, rowBody]
+    have hk : (x - f.start).toNat < (slice (resOf f.name) f.start f.stop).length := by omega
+    rw [List.getElem?_append_left hk, slice_getElem? _ _ _ _ h0 h1 h2]
+
+/-! ### small facts used by the property file -/
+
+/-- every fragment row `remap` returns carries the name of an input contig fragment -/
+theorem remap_frag_origin (input ptx : List Scaffold) (prefix_ : Str) (joinGap : Option Gap) (err : Int)
+    (outs : List OutAsm) (stats : Stats) (hwf : C01.WFInput input)
+    (h : remap input ptx prefix_ joinGap err = .ok (outs, stats)) :
+    ∀ a ∈ outs, ∀ s ∈ a.scaffolds, ∀ f, Row.frag f ∈ s.rows → ∃ F ∈ C01.inputFrags input, F.name = f.name := by
+  intro a ha s hs f hr
+  have hp := (C01.remap_partitions input ptx prefix_ joinGap err outs stats hwf h).2
+  have hm : f.keyTuple ∈ C01.outputTriples outs := by
+    unfold C01.outputTriples
+    refine List.mem_flatMap.mpr ⟨s, List.mem_flatMap.mpr ⟨a, ha, hs⟩, ?_⟩
+    exact List.mem_map.mpr ⟨f, C01.mem_fragmentsOf.mpr hr, rfl⟩
+  obtain ⟨_, F, hF, hn, _, _⟩ := hp _ hm
+  exact ⟨F, hF, hn⟩
+
+theorem strToBytes_inj (a b : Str) (h : strToBytes a = strToBytes b) : a = b := by
+  unfold strToBytes at h
+  induction a generalizing b with
+  | nil => cases b with | nil => rfl | cons _ _ => cases h
+  | cons c t ih =>
+    cases b with
+    | nil => cases h
+    | cons d u =>
+      simp only [List.map_cons, List.cons.injEq] at h
+      have : c = d := Char.ext (UInt32.toNat_inj.mp h.1)
+      rw [this, ih u h.2]
+
+theorem nodup_map_strToBytes (l : List Str) (h : l.Nodup) : (l.map strToBytes).Nodup :=
+  nodup_map_of_inj_on strToBytes l h (fun x _ y _ e => strToBytes_inj x y e)
 
 end AgpTpf.C03
